@@ -1522,7 +1522,9 @@ class ServerKeyExchange(HandshakeMsg):
         elif self.cipherSuite in CipherSuite.ecdhAllSuites:
             self.curve_type = parser.get(1)
             # only named curves supported
-            assert self.curve_type == 3
+            if self.curve_type != 3:
+                raise TLSIllegalParameterException(
+                    "Unsupported curve_type in ServerKeyExchange")
             self.named_curve = parser.get(2)
             self.ecdh_Ys = parser.getVarBytes(1)
         else:
